@@ -209,8 +209,15 @@ DumpAlphabet(t) ==
   \cup {FS(f, <<m>>) : f \in {"Decset", "Decrst"}, m \in {1, 6, 7, 25, 1047}}
   \cup {FS("Sm", <<4>>), FS("Sm", <<20>>), FS("Sgr", <<<<7, 0>>>>), FS("Sgr", <<<<48, 200>>>>)}
   \cup {F2("Cup", t.rows, t.cols), F2("Cup", 1, 2), F2("Decstbm", 2, t.rows), F2("Decstbm", 1, t.rows - 1)}
-  \cup {Raw(<<27, 91>>), Raw(<<27, 91, 51>>), Raw(<<27, 91, 63, 50>>), Raw(<<27, 93, 97>>), Raw(<<27, 80, 49>>), Raw(<<27>>), Raw(<<27, 40>>)}
+  \cup {Raw(<<27, 91>>), Raw(<<27, 91, 51>>), Raw(<<27, 91, 63, 50>>), Raw(<<27, 93, 97>>), Raw(<<27, 80, 49>>), Raw(<<27>>), Raw(<<27, 40>>), Raw(<<27, 91, 33>>)}
 DumpSizes == {<<3, 3>>, <<2, 2>>}
+(* pens through dump(): every colour at the boundaries between the encodings (basic 0-7, bright 8-15, the 256-   *)
+(* colour form from 16, RGB), both grounds, every attribute, in the current pen, on a cell and in a saved context *)
+DumpPenAlphabet(t) ==
+     {FS("Sgr", <<<<g, c>>>>) : g \in {38, 48}, c \in {0, 7, 8, 15, 16, 17, 255, 256, 256 + 65536 * 1 + 256 * 2 + 3}}
+  \cup {FS("Sgr", <<<<a, 0>>>>) : a \in {1, 2, 3, 4, 5, 7, 9}}
+  \cup {F1("Print", 97), F0("Decsc"), F1("El", 0)}
+DumpPenSizes == {<<2, 1>>}
 (* the histories that lead into the two known-finding classes *)
 DumpKnownAlphabet(t) ==
   {FS("Decset", <<6>>), F0("Decsc"), F0("Decrc"), F2("Decstbm", 2, t.rows), FS("Decset", <<1047>>), F1("Print", 97), F2("Cup", 1, 1)}
